@@ -58,12 +58,14 @@ def parse_report(text):
 def check_file(ctx, stem, text_in, model=None, subdir="inputs"):
     cr = repo("conditionalrewards")
     d = tempfile.mkdtemp(prefix="crv_")
-    inp = {"stem": stem, "file_head": text_in[:300]}
+    inp = {"stem": stem, "subdir": subdir, "file_text": text_in if len(text_in) < 20000 else text_in[:300]}
     try:
-        os.makedirs(os.path.join(d, subdir))
+        os.makedirs(os.path.join(d, subdir.lstrip("./")))
         os.mkdir(os.path.join(d, "outputs"))
         rel = f"{subdir}/{stem}.py"
-        open(os.path.join(d, rel), "w").write(text_in)
+        # a report of an earlier run of the same input must be replaced, not extended
+        open(os.path.join(d, "outputs", stem + ".txt"), "w").write("=" * 160 + "\nRunning example         : stale\n")
+        open(os.path.join(d, rel), "w", encoding="utf-8").write(text_in)
         # in-process: what the batch run produces
         try:
             with quiet(), time_limit(30.0):
@@ -96,7 +98,7 @@ def check_file(ctx, stem, text_in, model=None, subdir="inputs"):
         if p.returncode != 0 or outs != [stem + ".txt"]:
             ctx.violation("report-named-after-input", inp, {"rc": p.returncode, "outputs": outs, "stderr": p.stderr[-300:]})
             return
-        text = open(os.path.join(d, "outputs", outs[0])).read()
+        text = open(os.path.join(d, "outputs", outs[0]), encoding="utf-8", errors="replace").read()
     finally:
         shutil.rmtree(d, ignore_errors=True)
     blocks, err = parse_report(text)
@@ -184,12 +186,22 @@ def run(ctx, model=None):
                 else:
                     lab, _ = g["transition_list"][0][0]
                     g["transition_list"][0][0] = (lab, 99)
+            if rng.random() < 0.3:
+                # non-ASCII action / game names (the file is written as UTF-8)
+                ren = {"a": "acci\u00f3n", "b": "\u00fcber", "c": "\u03b3"}
+                g["transition_list"] = [[((ren.get(l, l) if isinstance(l, str) else l), t_) for l, t_ in row] if isinstance(row, list)
+                                        else row for row in g["transition_list"]]
+                games.append((rng.choice(["se\u00f1al", "game_\u03b1"]) + f"_{i}", g))
+                continue
             games.append((rng.choice(["game", "g_1", "robot7", "x_y_z"]) + f"_{i}", g))
         stem = rng.choice(["batch", "robot_12_w3_l2", "my_games_2024", "a_b_c_1"]) + f"_{it}"
-        check_file(ctx, stem, render_game_file(games), model, subdir=rng.choice(["inputs", "inputs", "data_1"]))
+        check_file(ctx, stem, render_game_file(games), model,
+                   subdir=rng.choice(["inputs", "./inputs", "data_1", "inputs.v2", "my.inputs/set_1"]))
         if ctx.time_left() < 0:
             return
 
 
 def replay(ctx, viol):
-    ctx.notes.append("C16 replay needs the original input file; re-run the tier with the recorded seed")
+    i = viol["input"]
+    if "file_text" in i and len(i["file_text"]) > 300:
+        check_file(ctx, i["stem"], i["file_text"], None, subdir=i.get("subdir", "inputs"))
